@@ -123,7 +123,7 @@ func TestC09a(t *testing.T) {
 	}
 	core.Run(t, core.Spec[Case]{
 		Property: "C09", Sub: "a",
-		Rule: "BOUNDED-EXHAUSTIVE: every deliverable sequence of 1..max_len events (extra.max_len; 3 quick, 4 thorough) over 3 agents (agent 0 registered at start) from the 36-event alphabet {reg a, connect(p,c) for all 9 pairs incl. p=c, disconnect(p,x) for x in the 3 agents or an unknown id, exit a, killdate a, markdead a, markalive a}; an event is deliverable when its actor is known to the teamserver. One evaluation = one sequence (extra.sequences_total, extra.exhaustive). Oracle after every event: no agent is its own ancestor; every agent in at most one Links list, once; c in Links(p) <=> Parent(c)==p; TS_Links rows == {(Parent(c),c)}; event and a task for every agent complete within 20 s without panic; new/valid connect => Parent(c)==sender; disconnect of a child and death of either end remove the link everywhere. Non-trivial: a second link, a re-parenting, or a self/ancestor connect; distinct = (those four flags, links at death, death of a child, length bucket, child disconnect)",
+		Rule: "BOUNDED-EXHAUSTIVE: every deliverable sequence of 1..max_len events (extra.max_len; 3 quick, 4 thorough) over 3 agents (agent 0 registered at start) from the 36-event alphabet {reg a, connect(p,c) for all 9 pairs incl. p=c, disconnect(p,x) for x in the 3 agents or an unknown id, exit a, killdate a, markdead a, markalive a}; an event is deliverable when its actor is known to the teamserver. One evaluation = one sequence (extra.sequences_total, extra.exhaustive). Oracle after every event: no agent is its own ancestor; every agent in at most one Links list, once; c in Links(p) <=> Parent(c)==p; TS_Links rows == {(Parent(c),c)}; event and a task for every agent complete within 20 s without panic; new/valid connect => Parent(c)==sender; disconnect of a child and death of either end remove the link everywhere. With 3 agents no agent ever has more than 2 links: behaviour that needs 3 or more links (e.g. removing every link of a dying hub) is outside this enumeration by construction and is covered by (b) (label death-links:3+). Non-trivial: a second link, a re-parenting, or a self/ancestor connect; distinct = (those four flags, links at death, death of a child, length bucket, child disconnect)",
 		Gen: func(rt *rapid.T) Case {
 			if frozen >= 0 {
 				return mk(frozen)
@@ -183,6 +183,20 @@ func genB(t *rapid.T) Case {
 	kinds := []string{"connect", "connect", "connect", "connect", "connect", "connect", "connect", "connect",
 		"disconnect", "disconnect", "disconnect", "disconnect",
 		"exit", "killdate", "markdead", "markdead", "markalive", "reg", "connectfail"}
+	// one history in three starts by building a hub: agent 0 links 2..n-1 others (and, at n=3, the
+	// extra agent), so that agents with 3 and more links die / are re-parented often enough
+	if rapid.IntRange(0, 2).Draw(t, "hub") == 0 {
+		k := rapid.IntRange(2, n-1).Draw(t, "hub-links")
+		for i := 1; i <= k; i++ {
+			c.Ops = append(c.Ops, Op{K: "connect", A: 0, B: i})
+		}
+		if rapid.Bool().Draw(t, "hub-extra") {
+			c.Ops = append(c.Ops, Op{K: "connect", A: 0, B: -1})
+		}
+		if rapid.Bool().Draw(t, "hub-dies") {
+			c.Ops = append(c.Ops, Op{K: rapid.SampledFrom([]string{"exit", "killdate", "markdead"}).Draw(t, "hub-death"), A: 0})
+		}
+	}
 	for i := 0; i < nops; i++ {
 		op := Op{K: rapid.SampledFrom(kinds).Draw(t, "kind"), A: rapid.IntRange(0, n-1).Draw(t, "actor")}
 		switch op.K {
@@ -201,7 +215,7 @@ func genB(t *rapid.T) Case {
 func TestC09b(t *testing.T) {
 	core.Run(t, core.Spec[Case]{
 		Property: "C09", Sub: "b",
-		Rule: "random histories of 1..25 events over 3-5 agents (ids from the whole 32-bit range incl. >= 2^31, 1..n registered at start, database file new or pre-existing) with events reg, connect(p,c) for any pair incl. self / ancestor / an id never seen, failed connect, disconnect(p,x) incl. non-children, unknown ids and Removed=FALSE, exit, killdate, markdead, markalive; same oracle as (a). Non-trivial: a second link, a re-parenting, or a self/ancestor connect; distinct = (those four flags, links at death, death of a child, length bucket, child disconnect)",
+		Rule: "random histories of 1..25 events over 3-5 agents (ids from the whole 32-bit range incl. >= 2^31, 1..n registered at start, database file new or pre-existing) with events reg, connect(p,c) for any pair incl. self / ancestor / an id never seen, failed connect, disconnect(p,x) incl. non-children, unknown ids and Removed=FALSE, exit, killdate, markdead, markalive; one history in three starts with agent 0 linking 2..n-1 (+1) children and possibly dying, so that deaths with 3 and more links are frequent (labels death-links:0/1/2/3+); same oracle as (a). Non-trivial: a second link, a re-parenting, or a self/ancestor connect; distinct = (those four flags, links at death, death of a child, length bucket, child disconnect)",
 		Gen:   genB, Check: checkCase, Classify: classify,
 		Assumptions: assumptions,
 	})
